@@ -146,6 +146,8 @@ type c05Env struct {
 
 	wedged    func(mc.Result) // reports a wedged execution and never returns
 	graced    bool
+	leakedRdbReader bool // a never-started disk snapshot reader was closed by its owner (still registered in the data set)
+	gen       uint64 // vpoll generation of this execution
 	wakeDesc  bool            // during the current operation poll timers fire in reverse park order
 	snapStalled bool          // memory snapshot writer is waiting for space with all bytes handed over
 	lastOp    string          // last structural op (signature context)
@@ -191,10 +193,19 @@ func (e *c05Env) logf(format string, a ...interface{}) {
 	e.trace = append(e.trace, fmt.Sprintf(format, a...))
 }
 
+// stillCurrent parks the calling (main) goroutine of an execution that the driver has
+// given up on (watchdog): it must not touch the poll timers of a later execution.
+func (e *c05Env) stillCurrent() {
+	if vpoll.Gen() != e.gen {
+		<-c05Never
+	}
+}
+
 // tickSeq lets one poll period elapse for every parked poller, one poller at a time in
 // park order (so that the park order - and with it every later wake order - stays a
 // deterministic function of the operation sequence).
 func (e *c05Env) tickSeq() {
+	e.stillCurrent()
 	for _, t := range vpoll.Tickets() {
 		vpoll.Wake(t)
 		synctest.Wait()
@@ -309,6 +320,7 @@ func (e *c05Env) spinUntil(cond func() bool) {
 		if cond() {
 			return
 		}
+		e.stillCurrent()
 		if round%64 != 0 {
 			runtime.Gosched()
 			continue
@@ -797,6 +809,7 @@ func (e *c05Env) opRdb(mode string) {
 	e.hiRight()
 	e.hist++
 	e.hi = 0
+	e.leakedRdbReader = false
 	e.snapStalled = false
 	e.snap = &c05Snap{left: left, size: size}
 	e.aofStart, e.right = -1, -1
@@ -1024,6 +1037,11 @@ func (e *c05Env) closeReader(r *c05Reader) {
 }
 
 func (e *c05Env) dropReader(r *c05Reader) {
+	if e.disk() && !r.aof && !r.started && !r.invalid {
+		// store.Reader.Close only closes the pipe: the never-started snapshot reader stays
+		// registered in the data set
+		e.leakedRdbReader = true
+	}
 	e.closeReader(r)
 	e.settle()
 	e.checkReaders()
@@ -1182,6 +1200,7 @@ func (e *c05Env) apply(op string) {
 		e.retireWriter()
 		e.hist++
 		e.hi = 0
+		e.leakedRdbReader = false
 		e.snap, e.aofStart, e.right = nil, -1, -1
 		e.runID = ""
 		e.settle()
@@ -1221,7 +1240,7 @@ func (e *c05Env) enabled(tier string) ([]string, map[string]bool) {
 		return []string{"sidS", "sidN"}, risky
 	}
 	if e.disk() {
-		reg := e.w != nil && e.w.kind == "rdb"
+		reg := (e.w != nil && e.w.kind == "rdb") || e.leakedRdbReader
 		polling := 0
 		for _, r := range e.allRd {
 			if _, ended := r.snapshot(); !r.aof && !ended {
@@ -1557,6 +1576,7 @@ type c05Outcome struct {
 	enabled []string
 	risky   map[string]bool // enabled ops that reset the cache while a snapshot reader/writer is registered or two segment readers poll
 	wedged  bool
+	hung    bool
 }
 
 func c05Exec(t *testing.T, scn c05Scenario, tier string) c05Outcome {
@@ -1572,7 +1592,7 @@ func c05Exec(t *testing.T, scn c05Scenario, tier string) c05Outcome {
 		var out c05Outcome
 		msg := c05Bubble(t, func() {
 			vpoll.Reset(scn.Cfg.Backend == "disk")
-			e := &c05Env{t: t, cfg: scn.Cfg, dir: dir, aofStart: -1, right: -1, lastOp: "init"}
+			e := &c05Env{t: t, cfg: scn.Cfg, dir: dir, aofStart: -1, right: -1, lastOp: "init", gen: vpoll.Gen()}
 			e.wedged = func(v mc.Result) {
 				resCh <- c05Outcome{res: v, wedged: true}
 				<-c05Never
@@ -1613,7 +1633,18 @@ func c05Exec(t *testing.T, scn c05Scenario, tier string) c05Outcome {
 		os.RemoveAll(dir)
 		resCh <- out
 	}()
-	return <-resCh
+	// Watchdog (we are outside every bubble here: real time). An execution normally takes
+	// milliseconds; one that takes more than a minute is given up (its goroutines are
+	// abandoned like those of a wedged execution) and reported as hung - the caller retries.
+	select {
+	case out := <-resCh:
+		return out
+	case <-time.After(60 * time.Second):
+		buf := make([]byte, 1<<20)
+		buf = buf[:runtime.Stack(buf, true)]
+		fmt.Fprintf(os.Stderr, "c05: execution %v %v gave no verdict within 60 s of wall time; goroutines:\n%s\n", scn.Cfg, scn.Ops, buf)
+		return c05Outcome{hung: true, res: mc.Result{Verdict: "machinery", Clause: "execution gave no verdict within 60 s of wall time (harness hang)"}}
+	}
 }
 
 func c05Configs(tier string) []c05Cfg {
@@ -1675,6 +1706,10 @@ func runC05(t *testing.T, rep *mc.Reporter) {
 		run := func(ops []string, report bool) (c05Outcome, bool) {
 			scn := c05Scenario{Cfg: cfg, Ops: ops}
 			o := c05Exec(t, scn, tier)
+			for retry := 0; o.hung && retry < 2; retry++ {
+				rep.Count("retried_hung_executions", 1)
+				o = c05Exec(t, scn, tier)
+			}
 			if o.res.Verdict == "violation" {
 				for k := 0; k < 2; k++ {
 					o2 := c05Exec(t, scn, tier)
